@@ -129,49 +129,55 @@ func transferTables(src, dst objects.Store, sums [][]byte, x Xfer) error {
 		to := len(commits) * (k + 1) / rounds
 		batch := commits[from:to]
 		tts := map[string]struct{}{}
-		var expected [][]byte
 		for _, c := range batch {
 			tts[string(c.Table)] = struct{}{}
-			expected = append(expected, c.Sum)
 		}
 		var common [][]byte
 		if from > 0 {
 			common = [][]byte{commits[from-1].Sum}
 		}
-		sender, err := apiutils.NewObjectSender(src, batch, tts, common, x.MaxSize)
-		if err != nil {
-			return fmt.Errorf("new sender: %w", err)
-		}
-		recv := apiutils.NewObjectReceiver(dst, expected, logr.Discard())
-		finished := false
-		for n := 0; n < 1000000; n++ {
-			buf := bytes.NewBuffer(nil)
-			done, _, err := sender.WriteObjects(buf, nil)
-			if err != nil {
-				return fmt.Errorf("write objects: %w", err)
-			}
-			pr, err := packfile.NewPackfileReader(io.NopCloser(bytes.NewReader(buf.Bytes())))
-			if err != nil {
-				return fmt.Errorf("packfile reader: %w", err)
-			}
-			rd, err := recv.Receive(pr, nil)
-			if err != nil {
-				return fmt.Errorf("receive: %w", err)
-			}
-			if done {
-				if !rd {
-					return fmt.Errorf("sender is done, receiver still expects commits")
-				}
-				finished = true
-				break
-			}
-		}
-		if !finished {
-			return fmt.Errorf("transfer does not end")
+		if err := c03SendBatch(src, dst, batch, tts, common, x.MaxSize); err != nil {
+			return err
 		}
 		from = to
 	}
 	return nil
+}
+
+// c03SendBatch: one transfer - the real ObjectSender writes packfiles for the commits (leaving out what
+// the common commits are taken to bring), the real ObjectReceiver takes them in.
+func c03SendBatch(src, dst objects.Store, batch []*objects.Commit, tts map[string]struct{}, common [][]byte, maxSize uint64) error {
+	var expected [][]byte
+	for _, c := range batch {
+		expected = append(expected, c.Sum)
+	}
+	sender, err := apiutils.NewObjectSender(src, batch, tts, common, maxSize)
+	if err != nil {
+		return fmt.Errorf("new sender: %w", err)
+	}
+	recv := apiutils.NewObjectReceiver(dst, expected, logr.Discard())
+	for n := 0; n < 1000000; n++ {
+		buf := bytes.NewBuffer(nil)
+		done, _, err := sender.WriteObjects(buf, nil)
+		if err != nil {
+			return fmt.Errorf("write objects: %w", err)
+		}
+		pr, err := packfile.NewPackfileReader(io.NopCloser(bytes.NewReader(buf.Bytes())))
+		if err != nil {
+			return fmt.Errorf("packfile reader: %w", err)
+		}
+		rd, err := recv.Receive(pr, nil)
+		if err != nil {
+			return fmt.Errorf("receive: %w", err)
+		}
+		if done {
+			if !rd {
+				return fmt.Errorf("sender is done, receiver still expects commits")
+			}
+			return nil
+		}
+	}
+	return fmt.Errorf("transfer does not end")
 }
 
 // permuteColumns reorders the columns of the tables (all the same way; key column NAMES are kept, so
@@ -350,6 +356,15 @@ func genReceiveSpec(ctx *Ctx) (*TableSpec, uint64, int, rune, []string) {
 const c03RecvEvery = 4
 
 func runC03All(ctx *Ctx) {
+	// in addition to the case of this index (each from a random stream of its own): a table with a cell
+	// at the 16-bit length boundary, and a stored table examined after a later receipt that shares its
+	// blocks was refused
+	switch ctx.Idx % 8 {
+	case 3:
+		defer c03RunRefused(ctx)
+	case 7:
+		defer c03RunBoundaryCell(ctx)
+	}
 	if ctx.Idx > 0 && ctx.Idx%c03RecvEvery == 2 {
 		t, rs, w, comma, tags := genReceiveSpec(ctx)
 		x := genXfer(ctx.R)
@@ -368,6 +383,12 @@ func runC03All(ctx *Ctx) {
 }
 
 func corpusC03All(ctx *Ctx, op string, raw json.RawMessage) {
+	var rin c03RefusedInput
+	if op == "inv" && json.Unmarshal(raw, &rin) == nil && rin.Producer == c03RefusedProducer && rin.Spec != nil {
+		in2, res := c03DoRefused(rin.Spec, rin.Held, rin.Refusal, rin.EditAt, rin.Xfer)
+		ctx.Emit("inv", in2, res, true, "corpus", "producer="+c03RefusedProducer)
+		return
+	}
 	var in c03RecvInput
 	if op == "inv" && json.Unmarshal(raw, &in) == nil && in.Producer == "receive" && in.Spec != nil {
 		var comma rune
@@ -379,4 +400,342 @@ func corpusC03All(ctx *Ctx, op string, raw json.RawMessage) {
 		return
 	}
 	corpusC03(ctx, op, raw)
+}
+
+// ---- additional case kinds ------------------------------------------------------------------------
+
+func c03Rand(ctx *Ctx, salt int64) *rand.Rand {
+	return rand.New(rand.NewSource(ctx.Seed*1000003 + int64(ctx.Idx) + salt))
+}
+
+// c03RunBoundaryCell: a table one of whose cells is 65535, 65536 or 65537 bytes long - the two sides of
+// the largest length a cell's 16-bit prefix can hold, and one beyond. Where the cell sits rotates with
+// the index: in the key of the row that sorts last (the last row of the last block), in another cell of
+// that row, or anywhere. Every size class of table (a few rows, block-edge sizes) comes up.
+func c03RunBoundaryCell(ctx *Ctx) {
+	r := c03Rand(ctx, 0x63656c6c)
+	k := ctx.Idx / 8
+	size := []int{65536, 65535, 65537}[k%3]
+	place := (k / 3) % 3
+	nCols := 1 + r.Intn(3)
+	pk := genPK(r, nCols)
+	if place == 1 {
+		// a key and a cell outside it
+		nCols = 2 + r.Intn(2)
+		pk = r.Perm(nCols)[:1+r.Intn(nCols-1)]
+	}
+	var n int
+	switch r.Intn(4) {
+	case 0:
+		n = 1 + r.Intn(3)
+	case 1:
+		n = 255 + []int{-1, 0, 1}[r.Intn(3)]
+	default:
+		n = 2 + r.Intn(40)
+	}
+	t := GenTable(r, nCols, n, pk, 0)
+	kc := pk
+	if len(kc) == 0 {
+		// without a key the whole row is the key, compared cell by cell from the first
+		kc = make([]int, nCols)
+		for i := range kc {
+			kc[i] = i
+		}
+	}
+	iskey := map[int]bool{}
+	for _, c := range pk {
+		iskey[c] = true
+	}
+	less := func(a, b []string) bool {
+		for _, c := range kc {
+			if a[c] != b[c] {
+				return a[c] < b[c]
+			}
+		}
+		return false
+	}
+	last := 0
+	for i := range t.Rows {
+		if less(t.Rows[last], t.Rows[i]) {
+			last = i
+		}
+	}
+	row, col, letter := last, kc[0], byte('z')
+	switch place {
+	case 0:
+		// 'z'... is greater than every generated key cell: this row sorts last
+		row = r.Intn(len(t.Rows))
+	case 1:
+		col = -1
+		for c := 0; c < nCols; c++ {
+			if !iskey[c] && len(pk) > 0 {
+				col = c
+			}
+		}
+		if col < 0 {
+			col, place = kc[0], 0
+		}
+	default:
+		row, col, letter = r.Intn(len(t.Rows)), r.Intn(nCols), byte('a'+r.Intn(26))
+	}
+	t.Rows[row][col] = string(bytes.Repeat([]byte{letter}, size))
+	var runSize uint64 = 1 << 40
+	if r.Intn(3) == 0 {
+		runSize = uint64(1 + r.Intn(size+size/2))
+	}
+	in, res := doIngest(t, runSize, 1+r.Intn(4), 0, true)
+	tags := []string{"producer=ingest", fmt.Sprintf("boundary-cell=%d", size),
+		"boundary-cell-in=" + []string{"key-of-last-row", "last-row", "any-row"}[place]}
+	ctx.Emit("inv", in, res, true, tags...)
+}
+
+// c03RefusedInput is an ingest case whose table is examined at a destination that holds it (received
+// or ingested there) AFTER a later receipt of a table sharing its blocks was refused.
+type c03RefusedInput struct {
+	ingestInput
+	Producer string `json:"producer"`
+	Xfer     Xfer   `json:"xfer"`
+	// Held: how the destination came to hold the examined table: "received" | "ingested"
+	Held string `json:"held"`
+	// Refusal: why the later table is refused.
+	//   "missing-block": the later table is the examined one with one row edited; the sender takes a
+	//   commit for common whose table (at the source only) has the new blocks, so the packfile lacks them
+	//   "wrong-index-sum": the later table names the examined table's blocks, and a block index sum that
+	//   is not the sum of that block's index (a table written by a defective version)
+	Refusal string `json:"refusal"`
+	// EditAt: the row (position in Spec.Rows) edited in the later table / the block whose index sum is wrong
+	EditAt int `json:"editAt"`
+}
+
+const c03RefusedProducer = "receive-then-refused"
+
+func c03SaveCommit(db objects.Store, table []byte, parent []byte, i int) (*objects.Commit, error) {
+	com := &objects.Commit{Table: table, AuthorName: "a", AuthorEmail: "a@b.c", Time: time.Unix(1700000000+int64(i), 0).UTC(), Message: "t" + itoa(i)}
+	if parent != nil {
+		com.Parents = [][]byte{parent}
+	}
+	buf := newBuf()
+	if _, err := com.WriteTo(buf); err != nil {
+		return nil, err
+	}
+	csum, err := objects.SaveCommit(db, buf.Bytes())
+	if err != nil {
+		return nil, err
+	}
+	return mustCommit(db, csum), nil
+}
+
+func c03DoRefused(spec *TableSpec, held, refusal string, editAt int, x Xfer) (*c03RefusedInput, Res) {
+	csvBytes := spec.CSV(0)
+	hdr, rows, err := rereadCSV(csvBytes, 0)
+	in := &c03RefusedInput{ingestInput: ingestInput{PK: spec.PKIdx(), RunSize: 1 << 40, Workers: 1, Spec: spec},
+		Producer: c03RefusedProducer, Xfer: x, Held: held, Refusal: refusal, EditAt: editAt}
+	if err != nil {
+		return in, Err("csv-reread")
+	}
+	in.Columns = hxRow(hdr)
+	in.Rows = hxRows(rows)
+	if in.Rows == nil {
+		in.Rows = [][]string{}
+	}
+	res := Guard(func() Res {
+		src, dst := NewMemStore(), NewMemStore()
+		sum, err := IngestCSV(src, csvBytes, spec.PK, IngestCfg{})
+		if err != nil {
+			return Err("ingest")
+		}
+		c1, err := c03SaveCommit(src, sum, nil, 0)
+		if err != nil {
+			return Err("commit")
+		}
+		// the destination comes to hold the table
+		if held == "ingested" {
+			dsum, err := IngestCSV(dst, csvBytes, spec.PK, IngestCfg{})
+			if err != nil || !bytes.Equal(dsum, sum) {
+				return Err("ingest-at-destination")
+			}
+			if _, err := c03SaveCommit(dst, sum, nil, 0); err != nil {
+				return Err("commit")
+			}
+		} else {
+			if err := transferTables(src, dst, [][]byte{sum}, x); err != nil {
+				return Err("transfer")
+			}
+		}
+		if !objects.TableExist(dst, sum) || !objects.CommitExist(dst, c1.Sum) {
+			return Err("table-not-received")
+		}
+		// a later receipt that must be refused
+		var rerr error
+		var laterSum []byte
+		switch refusal {
+		case "missing-block":
+			if len(spec.Rows) == 0 {
+				return Err("not-a-case")
+			}
+			d := cloneSpec(spec)
+			at := editAt % len(d.Rows)
+			if at < 0 {
+				at = 0
+			}
+			iskey := map[int]bool{}
+			for _, p := range spec.PKIdx() {
+				iskey[p] = true
+			}
+			changed := false
+			for c := range d.Rows[at] {
+				if !iskey[c] && len(spec.PK) > 0 {
+					d.Rows[at][c] += "~"
+					changed = true
+					break
+				}
+			}
+			if !changed {
+				// every cell belongs to the key: a new row instead
+				nr := append([]string{}, d.Rows[at]...)
+				nr[0] += "~"
+				d.Rows = append(d.Rows, nr)
+			}
+			t2, err := IngestCSV(src, d.CSV(0), d.PK, IngestCfg{})
+			if err != nil {
+				return Err("ingest-later")
+			}
+			if bytes.Equal(t2, sum) {
+				return Err("not-a-case")
+			}
+			laterSum = t2
+			// the same rows under a renamed column: another table made of the same blocks, at the source only
+			d2 := cloneSpec(d)
+			c := len(d2.Columns) - 1
+			old := d2.Columns[c]
+			d2.Columns[c] = old + "_was"
+			for i, k := range d2.PK {
+				if k == old {
+					d2.PK[i] = d2.Columns[c]
+				}
+			}
+			tx, err := IngestCSV(src, d2.CSV(0), d2.PK, IngestCfg{})
+			if err != nil {
+				return Err("ingest-later")
+			}
+			cx, err := c03SaveCommit(src, tx, c1.Sum, 7)
+			if err != nil {
+				return Err("commit")
+			}
+			c2, err := c03SaveCommit(src, t2, c1.Sum, 1)
+			if err != nil {
+				return Err("commit")
+			}
+			rerr = c03SendBatch(src, dst, []*objects.Commit{c2}, map[string]struct{}{string(t2): {}}, [][]byte{c1.Sum, cx.Sum}, x.MaxSize)
+		case "wrong-index-sum":
+			tbl, err := objects.GetTable(src, sum)
+			if err != nil {
+				return Err("gettable")
+			}
+			if len(tbl.Blocks) == 0 {
+				return Err("not-a-case")
+			}
+			j := editAt % len(tbl.Blocks)
+			if j < 0 {
+				j = 0
+			}
+			bad := append([]byte{}, tbl.BlockIndices[j]...)
+			bad[0] ^= 0x55
+			tbl.BlockIndices[j] = bad
+			tb := newBuf()
+			if _, err := tbl.WriteTo(tb); err != nil {
+				return Err("write-table")
+			}
+			ts := meow.Checksum(0, tb.Bytes())
+			laterSum = ts[:]
+			com := &objects.Commit{Table: laterSum, Parents: [][]byte{c1.Sum}, AuthorName: "a", AuthorEmail: "a@b.c", Time: time.Unix(1700000001, 0).UTC(), Message: "later"}
+			cb := newBuf()
+			if _, err := com.WriteTo(cb); err != nil {
+				return Err("write-commit")
+			}
+			cs := meow.Checksum(0, cb.Bytes())
+			pf := newBuf()
+			pw, err := packfile.NewPackfileWriter(pf)
+			if err != nil {
+				return Err("packfile-writer")
+			}
+			if _, err := pw.WriteObject(packfile.ObjectTable, tb.Bytes()); err != nil {
+				return Err("packfile-writer")
+			}
+			if _, err := pw.WriteObject(packfile.ObjectCommit, cb.Bytes()); err != nil {
+				return Err("packfile-writer")
+			}
+			pr, err := packfile.NewPackfileReader(io.NopCloser(bytes.NewReader(pf.Bytes())))
+			if err != nil {
+				return Err("packfile-reader")
+			}
+			_, rerr = apiutils.NewObjectReceiver(dst, [][]byte{cs[:]}, logr.Discard()).Receive(pr, nil)
+		default:
+			return Err("not-a-case")
+		}
+		if rerr == nil || objects.TableExist(dst, laterSum) {
+			// the destination took a table in that it cannot hold soundly (a block or a block index is missing)
+			return Err("unsound-table-accepted")
+		}
+		// the table the destination already held, as it is now
+		d, err := DumpTable(dst, sum, true)
+		if err != nil {
+			return Err("dump")
+		}
+		out := &ingestResult{Table: d, Hashes: hashRows(d)}
+		iss, err := diagnoseTable(dst, sum)
+		if err != nil {
+			return Err("diagnose")
+		}
+		out.Issues = iss
+		raw, err := dst.Get(append([]byte("tbl/"), sum...))
+		if err == nil {
+			out.TblRaw = hx(raw)
+			dg := meow.Checksum(0, raw)
+			out.TblHash = hx(dg[:])
+		}
+		return Ok(out)
+	})
+	return in, res
+}
+
+// c03RunRefused: tables of 1 row .. several blocks (unique keys, every key choice, columns shuffled
+// every other time); how the destination holds the table, why the later table is refused and which
+// row / block differs rotate with the index.
+func c03RunRefused(ctx *Ctx) {
+	r := c03Rand(ctx, 0x72656675)
+	k := ctx.Idx / 8
+	held := []string{"received", "ingested"}[k%2]
+	refusal := []string{"missing-block", "wrong-index-sum"}[(k/2)%2]
+	maxBlocks := 2
+	if ctx.Thorough() {
+		maxBlocks = 4
+	}
+	nCols := 1 + r.Intn(3)
+	pk := genPK(r, nCols)
+	var n int
+	switch (k / 4) % 3 {
+	case 0:
+		n = 256 + r.Intn(maxBlocks*255)
+	case 1:
+		n = 1 + genRowCount(r, maxBlocks)
+	default:
+		n = 1 + r.Intn(300)
+	}
+	t := GenTable(r, nCols, n, pk, 0)
+	tags := []string{"producer=" + c03RefusedProducer, "held=" + held, "refusal=" + refusal}
+	if r.Intn(2) == 0 && nCols > 1 {
+		shuffleColumns(r, t)
+		tags = append(tags, "columns-shuffled")
+	}
+	if !keyLeading(t) {
+		tags = append(tags, "key-not-leading")
+	}
+	x := genXfer(r)
+	in, res := c03DoRefused(t, held, refusal, r.Intn(1<<20), x)
+	if kind, _ := res["kind"].(string); kind == "not-a-case" {
+		return
+	}
+	tags = append(tags, x.tags()...)
+	ctx.Emit("inv", in, res, len(t.Rows) > 255, tags...)
 }
